@@ -474,3 +474,26 @@ Proof.
   - destruct (zmem x (filter _ ids_)) eqn:E2; [|reflexivity].
     apply zmem_In in E2. apply filter_In in E2. destruct E2 as [E2 _]. apply zmem_In in E2. congruence.
 Qed.
+
+(* ------------------------------------------------------------------ the boolean check decides wf_file *)
+Lemma monotoneb_ok l : monotoneb l = true -> monotone l.
+Proof.
+  induction l as [|a t IH]; intros H; [exact Logic.I|]. simpl in *. destruct t as [|b t']; [exact Logic.I|].
+  apply andb_true_iff in H. destruct H as [H1 H2]. apply Nat.leb_le in H1. split; [exact H1|apply IH; exact H2].
+Qed.
+
+Lemma wf_axisb_ok A : wf_axisb A = true -> wf_axis A.
+Proof.
+  unfold wf_axisb, wf_axis. rewrite !andb_true_iff. intros ((((((H1 & H2) & H3) & H4) & H5) & H6) & H7).
+  apply negb_true_iff, zdup_false_NoDup in H1. apply Nat.eqb_eq in H2. apply monotoneb_ok in H3.
+  apply Nat.eqb_eq in H5. apply md_okb_ok in H6.
+  repeat split; try assumption.
+  - apply Forall_forall. intros p Hp. rewrite forallb_forall in H4. apply Nat.leb_le. apply H4. exact Hp.
+  - intros E. rewrite E in H7. discriminate.
+Qed.
+
+Lemma wf_fileb_ok f : wf_fileb f = true -> wf_file f.
+Proof.
+  unfold wf_fileb, wf_file. rewrite !andb_true_iff. intros ((H1 & H2) & H3).
+  repeat split; try (apply wf_axisb_ok; assumption). unfold views_agree. apply mat_eqb_eq. exact H3.
+Qed.
